@@ -116,6 +116,26 @@ def near_pole(*lats):
 
 # ------------------------------------------------------------- conversions
 _POOL = {"n": 0}
+_TN = {"n": 0}
+
+
+def T(v):
+    """An Angle holding v; every other one carries a non-default comparison
+    tolerance (set_tolerance(), or inherited from the Angle it was copied
+    from), which is not part of its value: geometry must not depend on it."""
+    from pymeeus.Angle import Angle
+    a = Angle(v)
+    _TN["n"] += 1
+    k = _TN["n"] % 6
+    if k == 1:
+        a.set_tolerance(1e-3)
+    elif k == 3:
+        a.set_tolerance(1e-2)
+        a = Angle(a)
+    elif k == 5:
+        a.set_tolerance(0.0)
+    return a
+
 
 
 def conv(name, lon, lat, par):
@@ -136,8 +156,8 @@ def conv(name, lon, lat, par):
         if par is not None:
             pa.set(par)
     else:
-        a, b = Angle(lon), Angle(lat)
-        pa = Angle(par) if par is not None else None
+        a, b = T(lon), T(lat)
+        pa = T(par) if par is not None else None
     if name == "eq2ecl":
         r = C.equatorial2ecliptical(a, b, pa)
     elif name == "ecl2eq":
@@ -295,7 +315,7 @@ def case_separation(mon, lon1, lat1, lon2, lat2):
         mon.cls("pair-farther-than-179.9-deg", ident, dict(case, sep=true))
     else:
         mon.cls("pair", ident)
-    A = Angle
+    A = T
     try:
         s12 = C.angular_separation(A(lon1), A(lat1), A(lon2), A(lat2))()
         s21 = C.angular_separation(A(lon2), A(lat2), A(lon1), A(lat1))()
